@@ -136,3 +136,25 @@ def forced_for(target):
         name = hit[0][0]
         forced[name] = v if positive else ("ne", v)
     return forced
+
+
+def forced_for_kw(target):
+    """forced_for() plus the constraint the *keyword* selection rule puts on
+    the discriminating attribute.  None when the two cannot both hold."""
+    forced = forced_for(target)
+    if forced is None:
+        return None
+    forced = dict(forced)
+    r = target.kwrule
+    if r is not None and r[0] in ("kw_eq", "kw_ne"):
+        new = r[2] if r[0] == "kw_eq" else ("ne", r[2])
+        old = forced.get(r[1])
+        if old is not None and old != new:
+            if isinstance(old, tuple) and not isinstance(new, tuple) and new != old[1]:
+                pass  # "== new" implies "!= old"
+            elif isinstance(new, tuple) and not isinstance(old, tuple) and old != new[1]:
+                new = old
+            else:
+                return None
+        forced[r[1]] = new
+    return forced
